@@ -87,7 +87,55 @@ func loadProgram(patterns []string) (*Program, error) {
 			}
 		}
 	}
+	// instantiations of generic functions are also reachable under their bracket-free name when that is unambiguous
+	alias := map[string][]*ssa.Function{}
+	for k, fn := range P.Funcs {
+		if strings.Contains(k, "[") && len(fn.TypeArgs()) > 0 && fn.Blocks != nil && !hasTypeParamArg(fn) {
+			alias[stripBrackets(k)] = append(alias[stripBrackets(k)], fn)
+		}
+	}
+	for k, fns := range alias {
+		if _, exists := P.Funcs[k]; !exists && len(fns) == 1 {
+			P.Funcs[k] = fns[0]
+		}
+	}
 	return P, nil
+}
+
+// hasTypeParamArg: an "instantiation" inside another generic body, still parameterised.
+func hasTypeParamArg(fn *ssa.Function) bool {
+	for _, t := range fn.TypeArgs() {
+		if strings.Contains(types.TypeString(t, nil), "T") {
+			if _, ok := types.Unalias(t).(*types.TypeParam); ok {
+				return true
+			}
+			if p, ok := types.Unalias(t).(*types.Pointer); ok {
+				if _, ok := types.Unalias(p.Elem()).(*types.TypeParam); ok {
+					return true
+				}
+			}
+		}
+	}
+	return false
+}
+
+// stripBrackets removes every [...] group (type parameter / argument lists) from a function key.
+func stripBrackets(s string) string {
+	var b strings.Builder
+	d := 0
+	for _, c := range s {
+		switch c {
+		case '[':
+			d++
+		case ']':
+			d--
+		default:
+			if d == 0 {
+				b.WriteRune(c)
+			}
+		}
+	}
+	return b.String()
 }
 
 // funcKey gives a stable qualified name: "<pkgpath>.F", "<pkgpath>.(*T).M", "<pkgpath>.(T).M".
